@@ -13,17 +13,17 @@ func init() {
 	registerProperty(&PropertyInfo{
 		ID:    "C07",
 		Title: "Every query returns exactly the documents its meaning selects",
-		Rules: []string{"C07.R1", "C07.R2", "C07.R3", "C07.R4", "C07.R5", "C07.R6", "C07.R7", "C08.R6", "C06.R5"},
+		Rules: []string{"C07.R1", "C07.R2", "C07.R3", "C07.R4", "C07.R5", "C07.R6", "C07.R7", "C04.R7", "C08.R6", "C06.R5"},
 		Decides: "two structural conditions every correct searcher stack needs (narrow claim): after a DocumentMatch was handed back to the pool, no path uses the same access path or value again (dereference, argument, return, store) before it is overwritten - comparisons with nil or another pointer are not uses; the index-level postings iterators that span several segments return every non-nil posting with its number globalised by the snapshot's offset of the segment it came from, on the Next path and on the Advance path alike; the offsets themselves are cumulative full segment sizes (C06.R5). no loop runs over a cursor list that was emptied on every path to it (pending children are not dropped); a regexp's literal prefix is read only from case-sensitive literal nodes. a searcher wrapping one child reports exhaustion only when the child is exhausted; a heap element changed in place is re-sifted (C08.R6).",
 		NotCovered: "equality of the result set with the query's meaning: conjunction/disjunction/boolean/phrase iterator logic, term expansion, geo arithmetic; aliases of a recycled match held under a different access path.",
 	})
-	registerRule(&RuleInfo{ID: "C07.R1", Title: "a recycled match is never referenced again", Floor: 20, Run: ruleC07R1,
+	registerRule(&RuleInfo{ID: "C07.R1", Title: "a recycled match is never referenced again", Floor: 15, Run: ruleC07R1,
 		Covers: "every DocumentMatchPool.Put call in search/..."})
 	registerRule(&RuleInfo{ID: "C07.R3", Title: "heaps are only modified through container/heap", Floor: 1, Run: ruleC07R3,
 		Covers: "every call of Push/Pop on a type implementing heap.Interface"})
 	registerRule(&RuleInfo{ID: "C07.R4", Title: "a cursor is advanced to a target only when it is strictly behind it", Floor: 4, Run: ruleC07R4,
 		Covers: "every guarded child.Advance(ctx, target) in the searchers"})
-	registerRule(&RuleInfo{ID: "C07.R2", Title: "doc numbers leave the index layer globalised", Floor: 4, Run: ruleC07R2,
+	registerRule(&RuleInfo{ID: "C07.R2", Title: "doc numbers leave the index layer globalised", Floor: 2, Run: ruleC07R2,
 		Covers: "Next/Advance of every multi-segment PostingsIterator in package index"})
 }
 
